@@ -59,10 +59,20 @@ def dataset(spec):
         u = rng.random(n)
         X = np.column_stack([u, 1 - u])
     elif kind == 'tau0':
-        # rank pattern (1,2,3,4)->(2,4,1,3) has 3 concordant and 3 discordant pairs
-        base = np.array([[1, 2], [2, 4], [3, 1], [4, 3]], dtype=float) / 5.0
-        X = base if n <= 4 else np.vstack([base, base[:, ::-1] * 0.5 + 0.05])[: max(4, min(n, 8))]
-        X = X[rng.permutation(len(X))]
+        # Kendall tau exactly 0: as many concordant as discordant pairs (needs n(n-1)/2 even);
+        # found by rejection over random permutations, with random (tie-free) margins
+        m = int(rng.choice([4, 5, 8, 9, 12, 13]))
+        from vmon.refs import rank as _rank
+        for _ in range(20000):
+            perm = rng.permutation(m)
+            if _rank.tau_b(np.arange(m), perm) == 0:
+                break
+        else:
+            perm = np.array([1, 3, 0, 2])
+            m = 4
+        u = np.sort(rng.random(m))
+        v = np.sort(rng.random(m))[perm]
+        X = np.column_stack([u, v])[rng.permutation(m)]
     if kind == 'ties':
         X = np.round(X, 1)
     if kind == 'constant':
